@@ -414,6 +414,19 @@ func check(prop, tier string) int {
 	}
 	deadline := start.Add(time.Duration(budget) * time.Second).Unix()
 	outs := runJobs(b, prop, tier, jobs, seed, deadline)
+	// a worker that died without a result (killed by the kernel's OOM killer on behalf of another process, a fork
+	// failure on an overloaded machine, ...) is run once more, alone; only if it dies again is it a crash of the
+	// code under test. The retry is recorded in the evidence notes.
+	var retried []string
+	for i, o := range outs {
+		if o.res == nil && o.code != 66 {
+			o2 := runJob(b, prop, tier, o.job, i, seed, deadline)
+			if o2.res != nil {
+				retried = append(retried, fmt.Sprintf("worker %v died (%s) and completed normally when it was run again", o.job.Args, o.err))
+				outs[i] = o2
+			}
+		}
+	}
 
 	// merge
 	counters := map[string]int64{}
@@ -421,6 +434,7 @@ func check(prop, tier string) int {
 	var viols []violation
 	var hashFiles []string
 	var caps, notes, assumptions []string
+	notes = append(notes, retried...)
 	exhaustive := true
 	level, rule, bound := "", "", ""
 	seenAssume := map[string]bool{}
